@@ -22,15 +22,16 @@ LEVEL_TEXT = (
     "exactly when there is no best yet or the new one is strictly better than the *current* best); multi-"
     "objective - fronts of 0..2 individuals x batches of 1..2: the front is replaced only under the flag "
     "reported, by [new] + {old not dominated by new}. (R2) Problem.is_better is a strict '>' on the maximising "
-    "aggregate in the right argument order, and single-objective Problem classes (interpreted with a symbolic "
-    "fitness function) yield -v exactly when minimising. (R3) every search() returns the tracker's best on every "
-    "exit (helper chains followed; a return value that does not come from the tracker at all - a local incumbent,"
-    " a population member - is a finding); the trackers' aggregate views of a stored best (get_best_individuals "
-    "and the like) are interpreted on the heap the R1 model ends with. (R4) every call of Evaluator.evaluate / "
-    "evaluate_async is made by a ProgressTracker, so no evaluation escapes the comparison. (R5) every "
-    "evaluate_async, interpreted on ten batches, hands back every presented individual, cached or not. With "
-    "strict is_better the invariant 'best = first individual attaining the maximum aggregate so far' is "
-    "inductive; NaN fitness values are outside the decided clause."
+    "aggregate in the right argument order (the literal comparison, or - for any other spelling - a truth table "
+    "over aggregates (3,5), (5,3), (5,5), (-inf,5), (5,-inf) obtained by interpreting it), and single-objective "
+    "Problem classes (interpreted with a symbolic fitness function) yield -v exactly when minimising. (R3) every "
+    "search() returns the tracker's best on every exit (helper chains followed; a return value that does not come"
+    " from the tracker at all - a local incumbent, a population member - is a finding); the trackers' aggregate "
+    "views of a stored best (get_best_individuals and the like) are interpreted on the heap the R1 model ends "
+    "with. (R4) every call of Evaluator.evaluate / evaluate_async is made by a ProgressTracker, so no evaluation "
+    "escapes the comparison. (R5) every evaluate_async, interpreted on ten batches, hands back every presented "
+    "individual, cached or not. With strict is_better the invariant 'best = first individual attaining the "
+    "maximum aggregate so far' is inductive; NaN fitness values are outside the decided clause."
 )
 
 
